@@ -11,6 +11,22 @@ def hx(b): return bytes(b).hex() if len(b) else "-"
 def unhx(s): return b"" if s == "-" else bytes.fromhex(s)
 def kv(op): return dict(x.split("=", 1) for x in op.split()[1:] if "=" in x)
 
+def untemper(y):
+    """inverse of the MT19937 output tempering (so that the C generator's next output is exactly y)"""
+    y &= 0xffffffff
+    y ^= y >> 18
+    y ^= (y << 15) & 0xefc60000
+    t = y
+    for _ in range(5): t = y ^ ((t << 7) & 0x9d2c5680)
+    y = t & 0xffffffff
+    t = y
+    for _ in range(3): t = y ^ (t >> 11)
+    return t & 0xffffffff
+
+def temper(x):
+    x ^= x >> 11; x ^= (x << 7) & 0x9d2c5680; x ^= (x << 15) & 0xefc60000; x ^= x >> 18
+    return x & 0xffffffff
+
 UP = b"ABCDEFGHIJKLMNOPQRSTUVWXYZ"
 GAPS_TEXT = b"-_."
 
@@ -36,12 +52,17 @@ class C18(Prop):
     claimed = True
     technique = ("Lean 4 proof (Fisher-Yates/swap-loop invariants, permutation and support theorems for every generator state) + "
                  "exact differential correspondence of the executable model (on the C09 generator model) with the ASan/UBSan-built C code + python property monitors on the C output")
-    level_text = ("Theorems for every input and every generator state (hence every seed/history): plain shuffles keep length and residue multiset (digital: sentinels untouched); "
-                  "window shuffles keep the multiset inside every window; reversal is List.reverse, in place or not; column shuffle / sequence-order permutation output a permutation of the "
-                  "column (record) list with entries kept together; bootstrap outputs only input columns. The hand model is tied to the working tree by an exact differential run "
-                  "(same seed => same bytes and same generator consumption) and every clause of the property is also monitored directly on the C output.")
-    level_note = ("Trusted: Lean kernel + propext/Classical.choice/Quot.sound; fidelity of the hand model is checked (not proved) by the differential run; rejection loop of esl_rnd_Roll and the "
-                  "DP-shuffle retry loop are modelled with fuel (terminate with probability 1); zero-length pairwise alignments raise Easel's zero-size-allocation exception (modelled).")
+    level_text = ("Theorems for every input and every generator state (hence every seed and history), no size bound: plain shuffles keep length and residue multiset (digital: sentinels untouched); "
+                  "DP shuffle: ordered-pair multiset, first and last residue and length preserved whenever it returns eslOK, and its two reality checks can never fire (Altschul-Erickson/BEST argument "
+                  "proved from the code's own connectivity test), eslEINVAL exactly on invalid residues; k-mer shuffle = permutation of the consecutive k-mers after the unshuffled L mod k prefix; "
+                  "window shuffles keep the multiset inside every window; reversal = List.reverse, in place or not; Markov-0 emits only input residues, Markov-1 only circular adjacent pairs, "
+                  "IID only symbols with p != 0 (over any lawful number type; rationals are an instance); column shuffle and sequence-order permutation output a permutation of the column (record) list "
+                  "with entries kept together; bootstrap outputs only input columns; VShuffle keeps every column's multiset and gap positions; QRNA keeps column classes, gap positions and the per-class "
+                  "column multiset. The hand model is tied to the working tree by an exact differential run (same seed => same bytes, same generator consumption, in place = separate) and every clause "
+                  "is also monitored directly on the C output.")
+    level_note = ("Trusted: Lean kernel + propext/Classical.choice/Quot.sound; fidelity of the hand model is checked (not proved) by the differential run; esl_rnd_Roll's rejection loop and the DP "
+                  "shuffle's retry loop are modelled with fuel (they end with probability 1, not for every stream); Markov/IID support theorems are over exact arithmetic laws (x+0=x, 0/d=0, "
+                  "nonnegative ratio never < 0/norm) that binary64 is trusted to satisfy (L0); zero-length pairwise alignments raise Easel's zero-size-allocation exception (modelled, outside the quantifier).")
     diverge_is_violation = False
     quick_budget_s = 90
     trusted_base = ["hand model of esl_randomseq.c / esl_msashuffle.c / esl_vectorops.c shufflers tied by exact differential run (h_randomseq.c, ASan+UBSan build of the working tree)",
@@ -200,6 +221,24 @@ class C18(Prop):
         if rng.random() < 0.05: y = y + b"\x00"
         return "xqrna abc=%s x=%s y=%s ip=%d" % (abc, hx(x), hx(y), ip)
 
+    def poke_for(self, rng, op):
+        """a `poke` line placing the generator's next output on a boundary relevant to the first draw of `op`"""
+        w = op.split()[0]; a = kv(op)
+        n = None
+        if w in ("cshuffle", "xshuffle"): n = len(unhx(a["s"]))
+        elif w in ("ckmers", "xkmers"): n = len(unhx(a["s"])) // int(a["k"])
+        elif w in ("msashuffle", "bootstrap"): n = len(unhx(a["rows"].split(",")[0]))
+        elif w == "permute": n = len(a["rows"].split(","))
+        elif w in ("xiid", "xfiid") and a.get("p") == "none": n = int(a["K"])
+        vals = [0, 1, 0xffffffff, 0xfffffffe, 0x80000000, 0x7fffffff]
+        if n and n >= 2:
+            f = 0xffffffff // n
+            vals += [n * f, n * f - 1, n * f + 1, (n - 1) * f, (n - 1) * f - 1, f, f - 1]
+            vals = [v for v in vals if 0 <= v <= 0xffffffff]
+        v = rng.choice(vals)
+        assert temper(untemper(v)) == v
+        return "poke raw=%d" % untemper(v)
+
     def corpus(self, ctx):
         c = [
             # the input on which esl_rsq_XShuffleKmers moved the wrong blocks / the sentinel (fixed by fb16019)
@@ -210,13 +249,19 @@ class C18(Prop):
                                                "xshuffledp s=%s K=5 ip=0" % hx([0, 1, 2, 3, 4]), "xshuffledp s=%s K=2 ip=0" % hx([0, 0, 0]), "cshuffledp s=%s ip=0" % hx(b"ABA"), "peek"]},
             {"name": "empty-and-short", "ops": ["seed s=1"] + ["%s s=- ip=%d" % (o, ip) for o in ("cshuffle", "xshuffle", "cshuffledp", "creverse", "xreverse", "cmarkov0", "cmarkov1") for ip in (0, 1)]
                                                + ["ckmers s=- k=1 ip=0", "xkmers s=- k=3 ip=0", "cwindows s=- w=1 ip=0", "xwindows s=- w=2 ip=1", "xshuffledp s=- K=4 ip=0", "xmarkov0 s=- K=4 ip=0", "xmarkov1 s=- K=4 ip=0", "peek"]},
+            {"name": "dchoose-roll-0-and-max", "ops": ["seed s=5", "poke raw=%d" % untemper(0), "xiid p=%s L=3" % ",".join(dbits(x) for x in (0.0, 0.0, 0.5, 0.5, 0.0)),
+                                                       "poke raw=%d" % untemper(0xffffffff), "xiid p=%s L=3" % ",".join(dbits(x) for x in (0.0, 0.25, 0.75, 0.0)),
+                                                       "poke raw=%d" % untemper(0), "cmarkov0 s=%s ip=0" % hx(b"ZZZYZ"), "poke raw=%d" % untemper(0), "cmarkov1 s=%s ip=0" % hx(b"ZZZYZ"),
+                                                       "poke raw=%d" % untemper(0), "fiid abc=%s p=%s L=4" % (hx(b"ab"), ",".join(fbits(x) for x in (0.0, 1.0))), "peek"]},
+            {"name": "roll-rejection-boundary", "ops": ["seed s=9"] + sum([["poke raw=%d" % untemper(v), "cshuffle s=%s ip=0" % hx(b"ABCDEFG")] for v in
+                                                        (7 * (0xffffffff // 7), 7 * (0xffffffff // 7) - 1, 0xffffffff, 0)], []) + ["peek"]},
             {"name": "same-seed-inplace", "ops": ["seed s=99", "cshuffle s=%s ip=0" % hx(b"ACGTACGTAC"), "seed s=99", "cshuffle s=%s ip=1" % hx(b"ACGTACGTAC"), "peek"]},
         ]
         return [dict(x, sticky=1) for x in c]
 
     def cases(self, ctx):
         rng = ctx.rng
-        n = 5000 if ctx.tier == "quick" else 60000
+        n = 12000 if ctx.tier == "quick" else 120000
         out = []
         for c in range(n):
             seed = rng.choice([1, 2, 3, 42, 0x7fffffff, 0x80000000, 0xffffffff, rng.randrange(1, 1 << 32), rng.randrange(1, 1 << 32), rng.randrange(1, 1 << 32)])
@@ -234,14 +279,53 @@ class C18(Prop):
             else:
                 for _ in range(rng.randrange(1, 7)):
                     r = rng.random()
-                    if r < 0.62: ops.append(self.seq_op(rng, big))
-                    elif r < 0.74: ops.append(self.iid_op(rng))
-                    elif r < 0.78:
+                    if r < 0.60: o = self.seq_op(rng, big)
+                    elif r < 0.73: o = self.iid_op(rng)
+                    elif r < 0.77:
                         v = [rng.randrange(-50, 50) for _ in range(rng.choice([0, 1, 2, 3, rng.randrange(0, 40)]))]
-                        ops.append("%s v=%s ip=%d" % (rng.choice(["ishuffle", "ireverse"]), ",".join(map(str, v)) if v else "-", rng.randrange(2)))
-                    else: ops.append(self.msa_op(rng))
+                        o = "%s v=%s ip=%d" % (rng.choice(["ishuffle", "ireverse"]), ",".join(map(str, v)) if v else "-", rng.randrange(2))
+                    else: o = self.msa_op(rng)
+                    if rng.random() < 0.12: ops.append(self.poke_for(rng, o))
+                    ops.append(o)
             ops.append("peek")
             out.append({"name": "gen%d" % c, "ops": ops, "sticky": 1})
+        out += self.sweep(ctx)
+        return out
+
+    def sweep(self, ctx):
+        """systematic part: every length 0..Lmax with every k and w in 1..L+1 (text and digital, alternating in place),
+        the DP shuffle and both Markov resamplers on every length, and the exact upper limit L = 5000"""
+        rng = ctx.rng
+        Lmax = 24 if ctx.tier == "quick" else 64
+        out = []
+        for L in range(0, Lmax + 1):
+            K = rng.choice([1, 2, 3, 4, 20, 26])
+            codes = self.rand_codes(rng, L, K)
+            txt = bytes(UP[c] for c in codes)
+            ops = ["seed s=%d" % rng.randrange(1, 1 << 32)]
+            for k in range(1, L + 2):
+                ops.append("ckmers s=%s k=%d ip=%d" % (hx(txt), k, k & 1))
+                ops.append("xkmers s=%s k=%d ip=%d" % (hx(codes), k, (k + 1) & 1))
+                ops.append("cwindows s=%s w=%d ip=%d" % (hx(txt), k, (k + 1) & 1))
+                ops.append("xwindows s=%s w=%d ip=%d" % (hx(codes), k, k & 1))
+            for o in ("cshuffle", "cshuffledp", "creverse", "cmarkov0", "cmarkov1"):
+                ops.append("%s s=%s ip=%d" % (o, hx(txt), L & 1))
+            ops.append("xshuffle s=%s ip=0" % hx(codes)); ops.append("xreverse s=%s ip=1" % hx(codes))
+            for o in ("xshuffledp", "xmarkov0", "xmarkov1"):
+                ops.append("%s s=%s K=%d ip=%d" % (o, hx(codes), K, (L + 1) & 1))
+            ops.append("peek")
+            out.append({"name": "sweep-L%d" % L, "ops": ops, "sticky": 1})
+        # the upper limit of the quantifier
+        for L in ((5000,) if ctx.tier == "quick" else (4999, 5000)):
+            K = rng.choice([2, 4, 20, 26])
+            codes = [rng.randrange(K) for _ in range(L)]
+            txt = bytes(UP[c] for c in codes)
+            ops = ["seed s=%d" % rng.randrange(1, 1 << 32), "cshuffle s=%s ip=0" % hx(txt), "cshuffledp s=%s ip=1" % hx(txt), "xshuffledp s=%s K=%d ip=0" % (hx(codes), K),
+                   "ckmers s=%s k=%d ip=1" % (hx(txt), rng.choice([1, 2, 3, 7, 2500, 5000, 5001])), "xkmers s=%s k=%d ip=0" % (hx(codes), rng.choice([1, 3, 8, 4999, 5000, 5001])),
+                   "cwindows s=%s w=%d ip=0" % (hx(txt), rng.choice([1, 2, 10, 20, 4999, 5000, 5001])), "xwindows s=%s w=%d ip=1" % (hx(codes), rng.choice([1, 3, 10, 5000, 5001])),
+                   "creverse s=%s ip=1" % hx(txt), "xreverse s=%s ip=0" % hx(codes), "cmarkov0 s=%s ip=0" % hx(txt), "cmarkov1 s=%s ip=1" % hx(txt),
+                   "xmarkov0 s=%s K=%d ip=1" % (hx(codes), K), "xmarkov1 s=%s K=%d ip=0" % (hx(codes), K), "peek"]
+            out.append({"name": "limit-L%d" % L, "ops": ops, "sticky": 1})
         return out
 
     def canonical(self, line):
@@ -281,6 +365,7 @@ class C18(Prop):
 
     def check_one(self, w, a, l):
         if w == "peek": return None if l.startswith("ok ") else "peek failed"
+        if w == "poke": return None if l == "ok" else "poke failed"
         if w in ("cshuffle", "ckmers", "cwindows", "creverse", "cshuffledp", "cmarkov0", "cmarkov1"):
             s = unhx(a["s"]); L = len(s)
             if w in ("cshuffledp", "cmarkov0", "cmarkov1") and not all(is_alpha(c) for c in s):
@@ -412,6 +497,18 @@ class C18(Prop):
         return None
 
     def extra_evidence(self, ctx):
-        return {}
+        # measured input distribution of the generated cases (re-generated with the same seed)
+        import random
+        ctx2 = type("C", (), {})(); ctx2.tier = ctx.tier
+        ctx2.rng = random.Random(ctx.seed * 7919 + 13)
+        ops = Counter(); lens = Counter(); n = 0
+        for c in self.corpus(ctx2) + self.cases(ctx2)[:3000]:
+            for o in c["ops"]:
+                w = o.split()[0]; ops[w] += 1; a = kv(o)
+                if "s" in a and w != "seed":
+                    L = len(unhx(a["s"])); lens["0" if L == 0 else "1-2" if L <= 2 else "3-39" if L < 40 else "40-299" if L < 300 else "300-5000"] += 1
+            n += 1
+        return {"input_distribution": {"sampled_cases": n, "ops": dict(ops), "sequence_lengths": dict(lens)},
+                "mutations_caught": "see final report: 14 hand mutations of esl_randomseq.c/esl_msashuffle.c/esl_random.c, all non-equivalent ones reported"}
 
 SPEC = C18()
